@@ -122,6 +122,10 @@ def discharge(vc, obls, wd, timeout=10, fuel=1, jobs=16, order=('z3new', 'z3', '
 
     def run(item):
         o, q = item
+        if vc.quant_defs and o.expect == 'unsat':
+            r0 = smt.solve(vc.query(o, fuel, noq=True), wd, vc.fname + '##noq##' + o.name, timeout, order=('z3new',))
+            if r0['status'] == 'unsat':
+                return o, r0
         return o, smt.solve(q, wd, vc.fname + '##' + o.name, timeout, order)
 
     with ThreadPoolExecutor(max_workers=jobs) as ex:
